@@ -1,6 +1,7 @@
 package main
 
 import (
+	"crypto/sha256"
 	"encoding/json"
 	"fmt"
 	"os"
@@ -70,6 +71,34 @@ func writeEvidence(e *engine, prop, tier string, seed int, results []*obligation
 		}
 	}
 	sort.Strings(fl)
+	// source files the encoded functions were built from, with their hashes
+	srcHash := map[string]string{}
+	for f := range funcs {
+		if !strings.Contains(f, modPath) {
+			continue
+		}
+		for _, p := range e.prog.AllPackages() {
+			_ = p
+			break
+		}
+	}
+	for _, pk := range e.pkgs {
+		for _, gf := range pk.GoFiles {
+			if strings.HasPrefix(gf, e.repo) && !strings.Contains(filepath.Base(gf), "zz_verif") {
+				if b, err := os.ReadFile(gf); err == nil {
+					h := sha256.Sum256(b)
+					srcHash[strings.TrimPrefix(gf, e.repo+"/")] = fmt.Sprintf("%x", h[:6])
+				}
+			}
+		}
+	}
+	harnessHash := map[string]string{}
+	for virt, real := range e.overlayFiles {
+		if b, err := os.ReadFile(real); err == nil {
+			h := sha256.Sum256(b)
+			harnessHash[strings.TrimPrefix(virt, e.repo+"/")] = fmt.Sprintf("%x", h[:6])
+		}
+	}
 	stdl := 0
 	for f := range funcs {
 		if !strings.Contains(f, modPath) {
@@ -104,6 +133,8 @@ func writeEvidence(e *engine, prop, tier string, seed int, results []*obligation
 			"solver":                        e.solverKind,
 			"load_and_ssa_build_s":          round2(e.loadTime.Seconds()),
 			"functions_encoded":             fl,
+			"repo_source_files_sha256":      srcHash,
+			"harness_files_sha256":          harnessHash,
 			"stdlib_functions_executed":     stdl,
 			"native_replays":                replayed,
 			"encoder_selftest":              e.selftest,
